@@ -1,18 +1,62 @@
-import RscelModel.Model.Builtins
+import RscelModel.Model.Strings
+import RscelModel.Model.Math
 /-
-Number formatting / parsing and time text formats used by the conversions.
-(Placeholder instance first; the exact definitions follow below as they are built.)
+The parameters of the conversions and string built-ins that come from libraries:
+`ConvExt` (Rust `std` shortest round-trip float printing and float parsing, chrono's RFC 3339 / RFC 2822
+text forms, `duration_str`) and `StrExt` (Unicode case mapping, the `regex` crate).
+
+The model takes their values on the points a run needs from a table (`ExtTable`): the harness sends the
+real library's answer along with each request.  A point missing from the table answers with a marker
+that cannot be mistaken for a real answer.  The default instance is the empty table.
 -/
 namespace Rscel
 
-def convStub : ConvExt where
-  stringDouble _ := "?".toList
-  stringTs _ := "?".toList
-  stringDur _ := "?".toList
-  doubleOfStr _ := none
-  tsOfStr _ := none
-  durOfStr _ := none
+/-- One library answer: kind, arguments, result (`none` = the library rejects the input). -/
+structure ExtEntry where
+  kind : String
+  ins : List Str
+  out : Option Val
 
-def stdBuiltins (now : Int) : Builtins := mkBuiltins convStub now []
+abbrev ExtTable := List ExtEntry
+
+def ExtTable.find (t : ExtTable) (kind : String) (ins : List Str) : Option (Option Val) :=
+  (List.find? (fun e => e.kind == kind && e.ins == ins) t).map (·.out)
+
+def missing : Str := "<not in table>".toList
+
+def hex16Str (b : UInt64) : Str := (Nat.toDigits 16 b.toNat)
+def intStr (i : Int) : Str := (toString i).toList
+
+def tableConv (t : ExtTable) : ConvExt where
+  stringDouble d := match t.find "sd" [hex16Str d] with | some (some (.str s)) => s | _ => missing
+  stringTs n := match t.find "st" [intStr n] with | some (some (.str s)) => s | _ => missing
+  stringDur n := match t.find "sdu" [intStr n] with | some (some (.str s)) => s | _ => missing
+  doubleOfStr s := match t.find "ds" [s] with | some (some (.float d)) => some d | _ => none
+  tsOfStr s := match t.find "ts" [s] with | some (some (.ts n)) => some n | _ => none
+  durOfStr s := match t.find "du" [s] with | some (some (.dur n)) => some n | _ => none
+
+def strOfVal : Val → Option Str
+  | .str s => some s
+  | _ => none
+
+def tableStr (t : ExtTable) : StrExt where
+  lower s := match t.find "lo" [s] with | some (some (.str r)) => r | _ => missing
+  upper s := match t.find "up" [s] with | some (some (.str r)) => r | _ => missing
+  reMatch s p := match t.find "rm" [s, p] with | some (some (.bool b)) => some b | _ => none
+  reCaptures s p :=
+    match t.find "rc" [s, p] with
+    | some (some .null) => some none
+    | some (some (.list gs)) => some (some (gs.map strOfVal))
+    | _ => none
+  reReplace all s p r :=
+    match t.find (if all then "rra" else "rr1") [s, p, r] with
+    | some (some (.str x)) => some x
+    | _ => none
+
+/-- All default functions and constructors over a table of library answers. -/
+def tableBuiltins (t : ExtTable) (now : Int) : Builtins :=
+  mkBuiltins (tableConv t) now (stringFuncs (tableStr t) ++ mathFuncs) (plainStringFuncs (tableStr t))
+
+def stdBuiltins (now : Int) : Builtins := tableBuiltins [] now
 
 end Rscel
